@@ -238,6 +238,30 @@ Proof.
   - discriminate.
 Qed.
 
+Lemma inv_spawnat esc s p s' : Inv s -> step esc s (LSpawnAt p) = Some s' -> Inv s'.
+Proof.
+  intros HI H. simpl in H. step_inv H. easy_fields HI.
+  assert (Hn : callers s (nc s) = CNone) by (apply Hnc; lia).
+  constructor; simp_state; intros; upd_cases; simp_state; eauto; try lia; try congruence.
+  - apply Hnc; lia.
+  - apply Hnc2; lia.
+  - split; [discriminate|]. intros Hx. apply Hpmh in Hx. congruence.
+  - split; [discriminate|]. intros Hx. apply Hwait in Hx. congruence.
+  - destruct H; discriminate.
+  - injection H as <-. now apply Nat.ltb_lt.
+Qed.
+
+Lemma inv_create esc s isc s' : Inv s -> step esc s (LCreate isc) = Some s' -> Inv s'.
+Proof.
+  intros HI H. simpl in H. step_inv H. all: auto_inv HI.
+  all: try match goal with Ha : answers _ = [] |- _ => rewrite Ha in * end.
+  all: try (apply Hwait in Hx; rewrite (Hnp (np s)) in Hx by lia; destruct Hx).
+  all: try (destruct Hx).
+  all: try (constructor).
+  all: exfalso; assert (Hlt : np s < np s); [|lia];
+    destruct H as [H|H]; apply (Href c); rewrite H; reflexivity.
+Qed.
+
 Lemma inv_cancel esc s s' : Inv s -> step esc s LCancel = Some s' -> Inv s'.
 Proof. intros HI H. simpl in H. step_inv H. auto_inv HI. Qed.
 
@@ -369,6 +393,8 @@ Lemma inv_step esc s l s' : Inv s -> step esc s l = Some s' -> Inv s'.
 Proof.
   intros HI H. destruct l.
   - eapply inv_spawn; eauto.
+  - eapply inv_spawnat; eauto.
+  - eapply inv_create; eauto.
   - eapply inv_timer; eauto.
   - eapply inv_cancel; eauto.
   - eapply inv_pmrecv; eauto.
